@@ -510,8 +510,9 @@ def gen_init(rng, mode):
                 local[n] = "reg"
             elif r < 0.7 and cand_done:
                 n = rng.choice(cand_done)
-                # never complete an initializer after the table became initialized (nil init state)
-                if local[n] == "reg":
+                # a done-function may be called again (twice in one transaction, in a later one, after the table
+                # became initialized, while other initializers are pending): it must stay without effect
+                if local[n] == "reg" or rng.random() < 0.5:
                     g.add(op="markdone", tx=tx, t=t, name=n)
                     local[n] = "done"
             elif r < 0.85:
